@@ -620,6 +620,11 @@ RestatTwiceNamed ==
              [St1(2, <<"o2">>, <<"s2">>, <<"o1">>) EXCEPT !.deps = d, !.hdrs = <<"o1">>],
              St1(3, <<"o3">>, <<"s3">>, <<>>),
              St1(4, <<"o4">>, <<"o2", "o3">>, <<>>) >>) : d \in {"gcc", "depfile"} }
+\* a restat statement with two outputs of which a run rewrites one and leaves the other alone: what depended only on the
+\* untouched output has nothing to do
+SplitGraphs ==
+  { Graph(<< [split |-> TRUE] @@ [St1(1, <<"o1", "p1">>, <<"s1", "s2">>, <<>>) EXCEPT !.restat = TRUE],
+             St1(2, <<"o2">>, <<"o1">>, <<>>), [St1(3, <<"o3">>, <<"p1">>, <<>>) EXCEPT !.restat = r3], St1(4, <<"o4">>, <<"o3">>, <<>>) >>) : r3 \in BOOLEAN }
 \* restat interplay: statement 1 is a restat statement whose input is touched (it re-runs and leaves
 \* its output alone) together with any other change, on random graphs
 RestatGraphs(R) ==
@@ -632,6 +637,7 @@ RestatGraphs(R) ==
 FamRestat(K, CH) ==
   UNION { {Scn(gr, <<Build(Roots(gr), 2, 1), [op |-> "touch", f |-> (gr.stmts[1].ex \o gr.stmts[1].im)[1]], c, Build(Roots(gr), 2, 1), Build(Roots(gr), 2, 1)>>) :
               c \in Pick(CH, ChangesET(gr))} : gr \in RestatGraphs(K) }
+  \cup UNION { {Scn(gr, <<Build(Roots(gr), j, 1), [op |-> o, f |-> f], Build(Roots(gr), j, 1), Build(Roots(gr), j, 1)>>) : j \in {1, 2}, o \in {"edit", "touch"}, f \in {"s1", "s2"}} : gr \in SplitGraphs }
   \cup UNION { {Scn(gr, <<Build(Roots(gr), j, 1), [op |-> "touch", f |-> "s1"], [op |-> o, f |-> f], Build(Roots(gr), j, 1), Build(Roots(gr), j, 1)>>) :
                   j \in {1, 2}, o \in {"edit", "touch"}, f \in {"s3", "s2"}} : gr \in RestatTwiceNamed }
 
